@@ -1198,6 +1198,44 @@ def e_shared(ctx):
     c13.g_load_window(ctx)
 
 
+@R.clause("C12.f", "the number checked, struck out or used to re-initialise the window is the message's OWN partial IV: without one (a response re-using the request's) the sentinel None is used")
+def f_own_piv(ctx):
+    """Added after an independently written breaking change replaced the sentinel `seqno = None` of the no-PIV
+    (response) arm by the number of the *request's* partial IV, which then reached initialize_from_freshlyseen: the
+    peer's window was initialised from this node's own sender sequence number and old requests became replayable.
+    Necessary condition: every definition of the variable handed to is_valid / strike_out /
+    initialize_from_freshlyseen is either None or lies on the side of the `COSE_PIV in unprotected` test on which the
+    option carried a partial IV."""
+    fi = ctx.prog.func("oscore.CanUnprotect.unprotect")
+    cfg = cfg_of(fi)
+    names = set()
+    for c in calls_in(fi.node):
+        if isinstance(c.func, ast.Attribute) and c.func.attr in ("is_valid", "strike_out", "initialize_from_freshlyseen") and "replay_window" in (chain(c.func.value) or "") and c.args and isinstance(c.args[0], ast.Name):
+            names.add(c.args[0].id)
+    ctx.ob("one variable carries the sequence number to the replay window", len(names) == 1, fi, fi.node, construct="unprotect: window argument", detail=str(sorted(names)))
+    if len(names) != 1:
+        return
+    S = next(iter(names))
+    ws = writes_to_name(fi.node, S)
+    ctx.floor("definitions of the window number in unprotect", len(ws), 2)
+    for w in ws:
+        v = w.value if isinstance(w, ast.Assign) else None
+        if isinstance(v, ast.Constant) and v.value is None:
+            ctx.ob("without an own partial IV nothing is struck out or initialised (sentinel None)", True, fi, w)
+            continue
+        nid = cfg.loc1(w)
+        own = guarded_by(cfg, nid, "COSE_PIV not in unprotected", False) or guarded_by(cfg, nid, "COSE_PIV in unprotected", True)
+        ctx.ob("a window number is taken only from a message that carries its own partial IV", own, fi, w, detail="guards: %s" % [(stmt_text(e), p) for e, p in guard_exprs(cfg, nid)])
+        ib = match("int.from_bytes($p, $**kw)", v) or match("int.from_bytes($p, $o)", v)
+        src_ok = False
+        if ib is not None and isinstance(ib["p"], ast.Name):
+            for w2 in writes_to_name(fi.node, ib["p"].id):
+                if cfg.dominates(cfg.loc1(w2), nid) or guarded_by(cfg, cfg.loc1(w2), "COSE_PIV not in unprotected", False):
+                    if isinstance(w2, ast.Assign) and (match("unprotected.pop(COSE_PIV)", w2.value) is not None or match("unprotected[COSE_PIV]", w2.value) is not None):
+                        src_ok = True
+        ctx.ob("that number is the integer value of the partial IV found in the OSCORE option", src_ok, fi, w)
+
+
 F = "aiocoap/oscore.py"
 
 _DECRYPT_BLOCK = (
@@ -1254,3 +1292,5 @@ R.seed("C12.d", F, "                self.replay_window_persisted = False\n      
 R.seed("C12.d", F, "    _index = None\n", "    _index = 0\n", "fresh window counts as initialised")
 
 R.seed("C12.e", F, "        if self.replay_window_persisted:\n            # Just remove the sequence numbers once from the file\n            self.replay_window_persisted = False\n            self._store()", "        if self.replay_window_persisted:\n            # Just remove the sequence numbers once from the file\n            self._store()\n            self.replay_window_persisted = False", "the file keeps a stale real window: after a crash replays of everything but the first request are accepted")
+
+R.seed("C12.f", F, "            seqno = None  # sentinel for not striking out anything\n", "            seqno = int.from_bytes(request_id.partial_iv, \"big\")\n", "response without PIV: window initialised from the request's (our own) number")
